@@ -1011,14 +1011,14 @@ class BasisDummy(BasisSet):
         op_symbol, op_factor = op.split_symbol, op.factor
 
         if len(op_symbol) == 1 and op_symbol[0] == "I":
-            mat = np.eye(1)
+            mat = np.eye(self.nbas)
         else:
             raise ValueError(f"op_symbol:{op_symbol} is not supported")
 
         return mat * op_factor
 
     def copy(self, new_dof):
-        return self.__class__(new_dof, self.sigmaqn)
+        return self.__class__(new_dof, self.nbas, self.sigmaqn)
 
 def x_power_k(k, m, n):
 # <m|x^k|n>, origin is 0
